@@ -1359,6 +1359,16 @@ func (e *Env) evalCall(n *ECall) SVal {
 		v := e.eval(n.Args[0])
 		e.resIdx = saved
 		return v
+	case "allocd":
+		// allocd(p): the object p points to (or the array of slice p) was allocated before the current state; nil counts
+		v := e.eval(n.Args[0])
+		t := v.t
+		if v.typ != nil {
+			if _, ok := v.typ.Underlying().(*types.Slice); ok {
+				t = "(s-arr " + v.t + ")"
+			}
+		}
+		return mathBool(fmt.Sprintf("(< (base %s) %s)", t, e.cur.alloc))
 	case "strof":
 		// strof(b): the Go conversion string(b) of a byte slice (the symbol the executor uses for it)
 		b := e.eval(n.Args[0])
